@@ -240,7 +240,9 @@ def decision_cases(r, pool):
     for gdesc in pool:
         gene, gid = instances.load_gene(gdesc)
         cfgs = list(gene.cn_configs)
-        for user in (None, ["1", "1"], ["1"], [cfgs[-1], "1"], ["1", "nope"], ["zz"], cfgs[:3], []):
+        # names of star-alleles that are not names of structures are unknown structures like any other name
+        not_cfg = [a for a in gene.alleles if a not in gene.cn_configs][:1] + [mi for a in gene.alleles.values() for mi in a.minors if mi not in gene.cn_configs][:1]
+        for user in (None, ["1", "1"], ["1"], [cfgs[-1], "1"], ["1", "nope"], ["zz"], cfgs[:3], []) + tuple(["1", x] for x in not_cfg):
             for male in (False, True):
                 cases.append({"gene": gdesc, "user": user, "male": male, "do_copy_number": r.random() < 0.6,
                               "chr": r.choice(["X", "Y", "20", None]),
@@ -258,6 +260,7 @@ def run_decision(case):
     gene.do_copy_number = case["do_copy_number"]
     if case["chr"] is not None:
         gene.chr = case["chr"]
+    user_before = list(case["user"]) if case["user"] is not None else None
     prof = instances.make_profile({}, cn_solution=case["user"])
     prof.male = case["male"]  # set directly: Profile.update's boolean parsing is the subject of C18
     sc = float(Fraction(case["depth_scale"]))
@@ -296,7 +299,7 @@ def run_decision(case):
         except AldyException as e:
             msg = str(e)
             if "unknown copy number configuration" in msg:
-                return {"kind": "unknown", "name": msg.split("configuration ")[1].split(".")[0]}, gene
+                return {"kind": "unknown", "name": msg.split("configuration ")[1].split(". Please run")[0]}, gene
             if "too low" in msg:
                 return {"kind": "too_low"}, gene
             return {"kind": "error", "msg": msg}, gene
@@ -304,6 +307,8 @@ def run_decision(case):
         cn.solve_cn_model = orig
         cn._filter_configs = orig_f
         cn._print_coverage = orig_p
+    if user_before is not None and list(case["user"]) != user_before:
+        return {"kind": "error", "msg": f"the caller's structure list was rewritten in place: {user_before} -> {list(case['user'])}"}, gene
     if "max_cn" in called:
         return {"kind": "solve", "max_cn": called["max_cn"]}, gene
     s = res[0]
